@@ -201,6 +201,10 @@ def explore(unit, repo):
         ended = 'return'
         try:
             args, kwargs = unit.make_inputs(ctx)
+            if getattr(unit, 'frame', False):
+                for v in list(args) + list(kwargs.values()):
+                    if isinstance(v, core.SArr):
+                        ctx.frame_inputs.add(v.buf)
             try:
                 if unit.wrap_call is not None:
                     ret = unit.wrap_call(f, ctx, args, kwargs)
